@@ -106,7 +106,7 @@ func genC11(t *rapid.T) c11Case {
 			case op == 7:
 				ops = append(ops, c11Op{Op: "parse", Name: fmt.Sprintf("/parsed%d.jet", rapid.IntRange(0, 2).Draw(t, "pname")), Arg: rapid.SampledFrom([]string{`{{ extends "/fx/layout.jet" }}{{ block body() }}p{{ end }}`, `{{ import "/fx/lib.jet" }}{{ yield box() content }}x{{ end }}`, `plain {{ 1 + 2 }}`, `{{ if }}`}).Draw(t, "psrc")})
 			case op == 8:
-				ops = append(ops, c11Op{Op: "addglobal", Name: rapid.SampledFrom([]string{"noise1", "noise2", "g_read"}).Draw(t, "gkey")})
+				ops = append(ops, c11Op{Op: "addglobal", Name: rapid.SampledFrom([]string{"noise1", "noise2", "g_read", "own", "own", "own"}).Draw(t, "gkey")})
 			case op == 9:
 				ops = append(ops, c11Op{Op: "lookupglobal", Name: rapid.SampledFrom([]string{"noise1", "g_read", "missing"}).Draw(t, "lkey")})
 			case op == 10:
@@ -247,6 +247,8 @@ func judgeC11(c c11Case) (v core.Verdict) {
 					case "addglobal":
 						if op.Name == "g_read" {
 							world.set.AddGlobal("g_read", "G") // same value the templates read
+						} else if op.Name == "own" {
+							world.set.AddGlobal(fmt.Sprintf("own%d", wi), wi) // a key no other goroutine writes
 						} else {
 							world.set.AddGlobal(op.Name, wi)
 						}
@@ -269,6 +271,22 @@ func judgeC11(c c11Case) (v core.Verdict) {
 		}
 		close(start)
 		wg.Wait()
+		// every global that was added is there afterwards, whatever overlapped with the call that added it
+		for wi, ops := range c.Workers {
+			for _, op := range ops {
+				if op.Op != "addglobal" {
+					continue
+				}
+				key := op.Name
+				if key == "own" {
+					key = fmt.Sprintf("own%d", wi)
+				}
+				if val, ok := world.set.LookupGlobal(key); !ok || (op.Name == "own" && fmt.Sprint(val) != fmt.Sprint(wi)) {
+					v.Failf("after all goroutines have finished, the global %q added by goroutine %d is missing or wrong (LookupGlobal = %v, %v); dev=%v", key, wi, val, ok, c.Dev)
+					return
+				}
+			}
+		}
 	}
 	private := c11Build(c, st)
 	want := map[string]c11Result{}
@@ -297,7 +315,7 @@ func mustJSON(x interface{}) json.RawMessage {
 
 func TestC11(t *testing.T) {
 	core.Run(t, "C11",
-		"operation mixes: 4-32 goroutines (on all, 2 or 4 Ps) x 5-25 operations (GetTemplate+Execute of pool templates incl. failing ones and fixed templates ranging over slices/maps/arrays/ints()/slice(), accessing fields of a reflect.StructOf type created for the case, yields, includes, extends, try (also nested and around yields / ranges); GetTemplate; Set.Parse incl. unparsable source; AddGlobal / LookupGlobal on unrelated keys or rewriting the same value; InMemLoader Set (identical content or unrelated files) / Delete (unrelated files)) on one fresh Set (development mode on/off), barrier start, repeated 1-3 times; binary built with -race and halt_on_error; every concurrent Execute compared with the same call alone on a private identically built Set; non-trivial = >=2 executions of the same template name race for its first load",
+		"operation mixes: 4-32 goroutines (on all, 2 or 4 Ps) x 5-25 operations (GetTemplate+Execute of pool templates incl. failing ones and fixed templates ranging over slices/maps/arrays/ints()/slice(), accessing fields of a reflect.StructOf type created for the case, yields, includes, extends, try (also nested and around yields / ranges); GetTemplate; Set.Parse incl. unparsable source; AddGlobal / LookupGlobal on unrelated keys or rewriting the same value; InMemLoader Set (identical content or unrelated files) / Delete (unrelated files)) on one fresh Set (development mode on/off), barrier start, repeated 1-3 times; binary built with -race and halt_on_error; every concurrent Execute compared with the same call alone on a private identically built Set; every global added by some goroutine must be there when all have finished; non-trivial = >=2 executions of the same template name race for its first load",
 		genC11, judgeC11)
 }
 
